@@ -587,6 +587,15 @@ func GenCase(prop string, seed uint64, thorough bool) *Case {
 		return genLife(seed, g, thorough)
 	case "C19":
 		return genRecover(seed, g, thorough)
+	case "C06":
+		if r.p(0.12) {
+			// the well-formedness conditions "must hold after ... Recover":
+			// lose the manifest, Recover (every table lands in level 0, ordered
+			// by file number), then a write-heavy program on the repaired DB
+			cc := genRecover(seed, g, thorough)
+			cc.Prop = "C06"
+			return cc
+		}
 	}
 	c.Knobs = g.knobs(pickCmp(r))
 	g.cmp = comparerByName(c.Knobs.Comparer).Compare
